@@ -197,4 +197,45 @@ def canonicalSplitUncapped (verts : List (V3 K)) (tris : List Tri) (i : Fin 3) (
   localSplitUncapped verts tris (ithAxis i) bias eps
 
 end Cut
+
+/-! ## `clip_segment_segment_with_normal` (clip_segment_segment.rs, 2-D crate only) -/
+
+/-- `utils::inv(val)`: `if val == 0.0 { 0.0 } else { 1.0 / val }` -/
+def uinv {K : Type} [Num K] (v : K) : K := if neq v 0 then 0 else 1 / v
+
+/-- the part of `clip_segment_segment_with_normal` after the two `if range[1] < range[0] { swap }` blocks: the segments
+`(s10, s11)`, `(s20, s21)` with their tangent ranges `[r10, r11]`, `[r20, r21]` and feature codes `(f10, f11)`, `(f20, f21)` -/
+def clipSSNCore {K : Type} [Num K] (s10 s11 s20 s21 : V2 K) (r10 r11 r20 r21 : K) (f10 f11 f20 f21 : Nat) : Option (ClipPts K × ClipPts K) :=
+  if r11 < r20 || r21 < r10 then none
+  else
+    let ca : ClipPts K :=
+      if r10 < r20 then
+        let bc := (r20 - r10) * uinv (r11 - r10)
+        ⟨s10.add ((s11.sub s10).smul bc), s20, 1, f20⟩
+      else
+        let bc := (r10 - r20) * uinv (r21 - r20)
+        ⟨s10, s20.add ((s21.sub s20).smul bc), f10, 1⟩
+    let cb : ClipPts K :=
+      if r21 < r11 then
+        let bc := (r21 - r10) * uinv (r11 - r10)
+        ⟨s10.add ((s11.sub s10).smul bc), s21, 1, f21⟩
+      else
+        let bc := (r11 - r20) * uinv (r21 - r20)
+        ⟨s11, s20.add ((s21.sub s20).smul bc), f11, 1⟩
+    some (ca, cb)
+
+/-- `clip_segment_segment_with_normal(seg1, seg2, normal)`: `tangent = normal.orthonormal_basis()[0] = (-normal.y, normal.x)`,
+ranges = `coords.dot(tangent)`, each segment reordered along the tangent, then the clipping points. -/
+def clipSegmentSegmentWithNormal {K : Type} [Num K] (a1 b1 a2 b2 n : V2 K) : Option (ClipPts K × ClipPts K) :=
+  let tangent : V2 K := ⟨-n.y, n.x⟩
+  let r10 := a1.dot tangent
+  let r11 := b1.dot tangent
+  let r20 := a2.dot tangent
+  let r21 := b2.dot tangent
+  let sw1 : Bool := decide (r11 < r10)
+  let sw2 : Bool := decide (r21 < r20)
+  clipSSNCore (if sw1 then b1 else a1) (if sw1 then a1 else b1) (if sw2 then b2 else a2) (if sw2 then a2 else b2)
+    (if sw1 then r11 else r10) (if sw1 then r10 else r11) (if sw2 then r21 else r20) (if sw2 then r20 else r21)
+    (if sw1 then 2 else 0) (if sw1 then 0 else 2) (if sw2 then 2 else 0) (if sw2 then 0 else 2)
+
 end Model
